@@ -189,7 +189,7 @@ def run_threads(case):
     simulation is judged by the same classifiers and kernel monitors as when run alone"""
     import sys
     import threading
-    from ..c02trace import build as build_program
+    from ..c02trace import build_single as build_program
     from .c15 import digest_of
     rng = random.Random('%s/%s/c03-threads' % (case['seed'], case['index']))
     stats = {'activations': 0, 'thread_batches': 1, 'programs_in_threads': 0,
